@@ -88,9 +88,37 @@ class EmptyIx:
         return "empty"
 
 
+class Derived:
+    """an index set computed some other way (membership tests, masks):
+    carried along so that the report can say what was delivered"""
+    skv_isarray = True
+
+    def __init__(self, text):
+        self.text = text
+
+    def skv_getattr(self, name):
+        return PyFunc(lambda a, k, n: Derived(f"{self.text}.{name}(..)"))
+
+    def skv_getitem(self, ix):
+        return Derived(f"{self.text}[..]")
+
+    def __repr__(self):
+        return self.text
+
+
 class TableStub:
-    def __init__(self, name):
-        self.name = name
+    skv_isarray = True
+
+    def __init__(self, name, rows=None):
+        self.name, self.rows = name, rows
+
+    def skv_getattr(self, name):
+        if name == "shape" and self.rows is not None:
+            return (self.rows, SymInt("n" + self.name, 7))
+        raise Unsupported(f"attribute .{name} of {self.name}")
+
+    def __repr__(self):
+        return self.name
 
     def skv_getitem(self, ix):
         if isinstance(ix, tuple) and len(ix) == 2 and isinstance(
@@ -120,6 +148,12 @@ def _hook(interp, name, args, kwargs, node):
         return ("setdiff", args[0], args[1])
     if name == "numpy.arange":
         return ("arange", args[0])
+    if name in ("numpy.isin", "numpy.in1d") and len(args) >= 2 and \
+            isinstance(args[0], (TableStub, Prov, Derived)):
+        return Derived(f"isin({args[0]!r}, {args[1]!r})")
+    if name in ("numpy.nonzero", "numpy.where") and len(args) == 1 and \
+            isinstance(args[0], Derived):
+        return (Derived(f"nonzero({args[0]!r})"),)
     return NotImplemented
 
 
@@ -134,9 +168,11 @@ def _fields(model) -> List[str]:
     return out
 
 
-def _mesh_obj(model, dim, has_bnd=True):
+def _mesh_obj(model, dim, has_bnd=True, facet_verts=None):
     mcls = model.cls("skfem.mesh.mesh", "Mesh")
-    attrs = {k: TableStub(k) for k in ("facets", "f2e", "t", "t2e", "t2f")}
+    attrs = {k: TableStub(k) for k in ("f2e", "t", "t2e", "t2f")}
+    attrs["facets"] = TableStub("facets", facet_verts or dim)
+    attrs["edges"] = TableStub("edges", 2)
     attrs["dim"] = PyFunc(lambda a, k, n: dim)
     attrs["bndelem"] = object() if has_bnd else None
     return Obj(mcls, attrs)
@@ -147,7 +183,7 @@ def _queries(model, rep):
     fields = _fields(model)
     dcls = model.cls(DOFS, "Dofs")
     n_cfg = 0
-    for dim in (2, 3):
+    for dim, fverts in ((2, 2), (3, 3), (3, 4)):
         for no in (0, 2):
             for ed in (0, 1):
                 for fa in (0, 3):
@@ -176,7 +212,8 @@ def _queries(model, rep):
                             ("get_vertex_dofs", "nodes", Sel("nodes"))):
                         captured.clear()
                         obj = Obj(dcls, {
-                            "topo": _mesh_obj(model, dim),
+                            "topo": _mesh_obj(model, dim,
+                                              facet_verts=fverts),
                             "element": El(),
                             "_dofnames_to_rows":
                                 PyFunc(lambda a, k, n: ("R0", "R1", "R2",
@@ -193,7 +230,9 @@ def _queries(model, rep):
                         bound = dict(zip(fields, args))
                         bound.update(kwargs)
                         cfg = f"{q}|dim={dim},nodal={no},edge={ed}," \
-                              f"facet={fa}"
+                              f"facet={fa}" + \
+                              (",quadrilateral facets" if fverts == 4
+                               else "")
                         _check_view(rep, R1, R2, cfg, q, arg, bound, counts,
                                     dim, dcls.methods[q].lineno)
     rep.units("query configurations", n_cfg * 3)
@@ -718,6 +757,13 @@ _D = "skfem/assembly/dofs.py"
 _AB = "skfem/assembly/basis/abstract_basis.py"
 _M = "skfem/mesh/mesh.py"
 MUTANTS = [
+    ("edges of quadrilateral facets taken as all edges between selected "
+     "vertices",
+     ("skfem/mesh/mesh.py", "            edges = np.unique(self.f2e[:, ix])",
+      "            edges = (np.unique(self.f2e[:, ix])\n"
+      "                     if self.facets.shape[0] == 3 else\n"
+      "                     np.nonzero(np.isin(self.edges, vertices)"
+      ".all(axis=0))[0])"), "C07-R1"),
     ("facet and edge sets exchanged in get_element_dofs' DofsView(...)",
      (_D, "            nodal_ix,\n            facet_ix,\n            edge_ix,\n"
       "            interior_ix,\n            r1,",
